@@ -182,6 +182,17 @@ package model
 //@   opt alloc=1
 //@   modifies alloc, fresh JSONValueNode.*
 //@   ensures[C01,C02,C04] entry: err == nil ==> r != nil && typeof(r) == typeid(*JSONValueNode) && as(r, *JSONValueNode).data == rv_elem(rv_mapindex(vn.data, index))
+//@ func (vn *JSONValueNode) GetObjectValueByField(field) (val, err)
+//@   serves C01 C02 C04
+//@   requires vn != nil
+//@   modifies
+//@   ensures[C01,C02,C04] member: err == nil ==> val == rv_elem(rv_mapindex(vn.data, rv_str(field)))
+//@ func (vn *JSONValueNode) GetChildNodeByField(field) (r, err)
+//@   serves C01 C02 C04
+//@   requires vn != nil
+//@   opt alloc=1
+//@   modifies alloc, fresh JSONValueNode.*
+//@   ensures[C01,C02,C04] member: err == nil ==> r != nil && typeof(r) == typeid(*JSONValueNode) && as(r, *JSONValueNode).data == rv_elem(rv_mapindex(vn.data, rv_str(field)))
 // diagnostic name of a node (used in error messages only): ASSUMED effect-free and panic-free
 //@ extern func (node *GoValueNode) IdentifiedAs() (s)
 //@   nopanic
